@@ -119,12 +119,11 @@ func (c *Ctx) adnlLayouts() {
 	}
 	if f := c.mustFn(R, "liteclient", "Packet.hash"); f != nil {
 		var ws []string
-		allInstrs(f, func(_ *ssa.BasicBlock, in ssa.Instruction) {
-			if cl, ok := in.(*ssa.Call); ok && cl.Call.IsInvoke() && cl.Call.Method.Name() == "Write" {
-				ws = append(ws, shape(cl.Call.Args[0], 3))
-			}
-		})
-		c.check(len(ws) == 2 && strings.Contains(ws[0], "nonce") && strings.Contains(ws[1], "Payload") && len(callsTo(f, "crypto/sha256.New")) == 1, R, "checksum = sha256(nonce | payload)", f.Pos(), strings.Join(ws, " | "), "Packet.hash no longer hashes the nonce followed by the payload with SHA-256: "+strings.Join(ws, " | "))
+		pieces, isSha := sha256Pieces(f)
+		for _, pc := range pieces {
+			ws = append(ws, shape(pc, 3))
+		}
+		c.check(len(ws) == 2 && strings.Contains(ws[0], "nonce") && strings.Contains(ws[1], "Payload") && isSha, R, "checksum = sha256(nonce | payload)", f.Pos(), strings.Join(ws, " | "), "Packet.hash no longer hashes the nonce followed by the payload with SHA-256: "+strings.Join(ws, " | "))
 	}
 	// session parameters: rx key 0:32, tx key 32:64, rx nonce 64:80, tx nonce 80:96
 	for name, want := range map[string][2]string{"params.rxKey": {"0", "32"}, "params.txKey": {"32", "64"}, "params.rxNonce": {"64", "80"}, "params.txNonce": {"80", "96"}} {
@@ -459,17 +458,10 @@ func (c *Ctx) adnlSmallFacts() {
 	}
 	if f := c.fn("liteclient", "Address.hash"); f != nil {
 		var first []int64
-		n := 0
-		allInstrs(f, func(_ *ssa.BasicBlock, in ssa.Instruction) {
-			cl, ok := in.(*ssa.Call)
-			if !ok || !cl.Call.IsInvoke() || cl.Call.Method.Name() != "Write" {
-				return
-			}
-			n++
-			if n != 1 {
-				return
-			}
-			if sl, ok := cl.Call.Args[0].(*ssa.Slice); ok {
+		pieces, isSha := sha256Pieces(f)
+		n := len(pieces)
+		if n > 0 {
+			if sl, ok := pieces[0].(*ssa.Slice); ok {
 				if al, ok := sl.X.(*ssa.Alloc); ok {
 					vals := map[int64]int64{}
 					for _, ref := range *al.Referrers() {
@@ -488,12 +480,12 @@ func (c *Ctx) adnlSmallFacts() {
 					}
 				}
 			}
-		})
+		}
 		got := ""
 		for _, b := range first {
 			got += fmt.Sprintf("%02x", b)
 		}
-		c.check(got == "c6b41348" && n == 2 && len(callsTo(f, "crypto/sha256.New")) == 1, R, "key id = sha256(c6b41348 | public key)", f.Pos(), got, "Address.hash hashes the prefix "+got+" (then "+fmt.Sprint(n-1)+" more piece(s)); an ADNL key id is sha256 over the TL id of pub.ed25519, c6 b4 13 48, followed by the 32-byte key - with any other prefix the server does not recognise the key it is addressed by")
+		c.check(got == "c6b41348" && n == 2 && isSha, R, "key id = sha256(c6b41348 | public key)", f.Pos(), got, "Address.hash hashes the prefix "+got+" (then "+fmt.Sprint(n-1)+" more piece(s)); an ADNL key id is sha256 over the TL id of pub.ed25519, c6 b4 13 48, followed by the 32-byte key - with any other prefix the server does not recognise the key it is addressed by")
 	}
 }
 
@@ -702,4 +694,88 @@ func isMakeSliceBase(d *ssa.Slice) bool {
 	}
 	_, isMk := base.(*ssa.MakeSlice)
 	return isMk
+}
+
+// sha256Pieces: the byte strings f feeds, in order, into one SHA-256: its own h.Write(x) calls on a hash made by
+// one sha256.New(), or the arguments it hands to an unexported variadic helper that makes one sha256.New(),
+// writes each element of its ...[]byte parameter in a range loop and returns Sum (sha256Sum(a, b)).
+func sha256Pieces(f *ssa.Function) ([]ssa.Value, bool) {
+	var direct []ssa.Value
+	allInstrs(f, func(_ *ssa.BasicBlock, in ssa.Instruction) {
+		if cl, ok := in.(*ssa.Call); ok && cl.Call.IsInvoke() && cl.Call.Method.Name() == "Write" {
+			direct = append(direct, cl.Call.Args[0])
+		}
+	})
+	if len(callsTo(f, "crypto/sha256.New")) == 1 {
+		return direct, true
+	}
+	if len(direct) > 0 {
+		return direct, false
+	}
+	for _, site := range callsIn(f) {
+		h := plainHelper(site.Common().StaticCallee())
+		if h == nil || h == f || !h.Signature.Variadic() || len(callsTo(h, "crypto/sha256.New")) != 1 {
+			continue
+		}
+		// the helper writes exactly the current element of a range over its variadic parameter
+		vp := h.Params[len(h.Params)-1]
+		okLoop, nWrite := false, 0
+		allInstrs(h, func(b *ssa.BasicBlock, in ssa.Instruction) {
+			cl, ok := in.(*ssa.Call)
+			if !ok || !cl.Call.IsInvoke() || cl.Call.Method.Name() != "Write" {
+				return
+			}
+			nWrite++
+			if ld, ok := cl.Call.Args[0].(*ssa.UnOp); ok && ld.Op == token.MUL {
+				if ia, ok := ld.X.(*ssa.IndexAddr); ok && ia.X == ssa.Value(vp) && inLoop(b) {
+					if _, isPhi := stripConv(ia.Index).(*ssa.Phi); isPhi || isRangeIndex(ia.Index) {
+						okLoop = true
+					}
+				}
+			}
+		})
+		if !okLoop || nWrite != 1 {
+			continue
+		}
+		// the elements of the argument slice, by index
+		args := site.Common().Args
+		sl, ok := args[len(args)-1].(*ssa.Slice)
+		if !ok {
+			continue
+		}
+		al, ok := sl.X.(*ssa.Alloc)
+		if !ok {
+			continue
+		}
+		elems := map[int64]ssa.Value{}
+		for _, ref := range *al.Referrers() {
+			if ia, ok := ref.(*ssa.IndexAddr); ok {
+				if i, ok := constInt(ia.Index); ok {
+					for _, st := range storesTo(ia) {
+						elems[i] = st.Val
+					}
+				}
+			}
+		}
+		var out []ssa.Value
+		for i := int64(0); i < int64(len(elems)); i++ {
+			if elems[i] == nil {
+				return nil, false
+			}
+			out = append(out, elems[i])
+		}
+		return out, true
+	}
+	return nil, false
+}
+
+// isRangeIndex: the index value of a range-over-slice loop in go/ssa (the incremented hidden counter).
+func isRangeIndex(v ssa.Value) bool {
+	bo, ok := v.(*ssa.BinOp)
+	if !ok || bo.Op != token.ADD {
+		return false
+	}
+	_, isPhi := bo.X.(*ssa.Phi)
+	k, isK := constInt(bo.Y)
+	return isPhi && isK && k == 1
 }
